@@ -200,6 +200,11 @@ pub fn run(args: &Args) -> Report {
             let (kind, mut tags): (u16, Vec<Vec<String>>) = match shape {
                 2 => (10002, vec![]),
                 4 => (30023, vec![vec!["d".into(), "x".into()]]),
+                // ephemeral kinds are stored (and referenced by offset) like any other, only never indexed
+                5 => {
+                    rep.count("referenced_ephemeral_events");
+                    (if k % 2 == 0 { 20001 } else { 29999 }, vec![vec!["t".into(), "r".into()]])
+                }
                 _ => (1, vec![vec!["t".into(), "r".into()]]),
             };
             let mut kind = kind;
@@ -389,6 +394,7 @@ pub fn run(args: &Args) -> Report {
     if only.is_none() && !rep.has_finding("bytes-changed") && !rep.has_finding("bytes-changed-at-stable-address") && !rep.has_finding("reference-target-unreadable") {
         rep.require("tail_replacements_of_a_referenced_event", "no referenced event was replaced while it was the newest in the map");
         rep.require("tail_removals_of_a_referenced_event", "no referenced event was removed while it was the newest in the map");
+        rep.require("referenced_ephemeral_events", "no ephemeral event was stored and referenced");
         rep.require("events_larger_than_two_growth_steps", "no event larger than two growth steps was stored");
         if debug {
             rep.require("referenced_events_ending_in_the_last_word_of_the_file", "no referenced event ended within the last word of the backing file");
